@@ -240,6 +240,6 @@ def run(ctx):
         "stream (bytes before the first frame, header+TOC length, is_last, keyframe flag and section sizes per frame)",
         "VarDCT frames occur only as synthetic JPEG transcodes (DCT8 blocks, jbrd box; compared without the feeding model); "
         "previews are not generated; an embedded ICC profile occurs only in the fixture",
-        "Brotli-compressed (brob) boxes are covered by C10 at the container layer only",
+        "Brotli-compressed (brob) boxes carry stored (uncompressed) Brotli streams only: there is no Brotli encoder offline",
         "rendered samples are compared by a 64-bit FNV hash of every channel buffer of every keyframe",
     ]
